@@ -787,6 +787,9 @@ impl Engine {
         let empty_range = rs > re;
         let rend = re.wrapping_add(0xfff);
         let mut ok = true;
+        // a release-protocol problem (reported below) that leaves translations and table structure as the history dictates does
+        // not end the exploration of this branch: what later calls do with such memory is checked under the other properties
+        let soft = !out.dealloc_problems.is_empty() && out.dealloc_problems.iter().all(|p| p.contains("before unlinking"));
         for p in &out.dealloc_problems {
             let kind = p.split(' ').take(6).collect::<Vec<_>>().join("-").replace(|c: char| c.is_ascii_digit(), "#");
             self.viol("C10", &format!("{}|{}", op, kind), &hist, Some(ai), p);
@@ -795,7 +798,7 @@ impl Engine {
                 // links to it (or a release of memory that is not an empty table) makes the mapper touch memory it does not own
                 self.viol("C09", &format!("{}|releases-memory-the-hierarchy-still-uses-or-never-owned|{}", op, kind), &hist, Some(ai), p);
             }
-            ok = false;
+            ok &= soft;
         }
         if out.requests != 0 || !out.given.is_empty() {
             self.viol("C09", &format!("{}|requests-frames", op), &hist, Some(ai), "");
@@ -832,7 +835,12 @@ impl Engine {
         if !tree.malformed.is_empty() || tree.leaves != r1.leaves {
             self.viol("C10", &format!("{}|translations-changed", op), &hist, Some(ai), &diff_desc(tree, r1));
             self.viol("C01", &format!("{}|translations-differ-from-the-history-after-clean-up", op), &hist, Some(ai), &diff_desc(tree, r1));
-            return false;
+            // entries that were left non-zero without PRESENT while every present entry is as the history dictates: reported above,
+            // and the branch is explored further - what the next calls make of such entries is judged under their own properties
+            let only_stale = tree.malformed.iter().all(|m| m.starts_with("non-zero non-present entry")) && tree.leaves == r1.leaves && tree.tables == r1.tables;
+            if !only_stale {
+                return false;
+            }
         }
         if tree.tables != r1.tables {
             self.viol("C10", &format!("{}|table-structure-inconsistent-with-the-frames-released", op), &hist, Some(ai), &diff_desc(tree, r1));
@@ -1258,6 +1266,11 @@ pub fn replay(case: &str) -> Vec<Rep> {
     }
     let idx: Vec<usize> = if t.len() > 2 && t[2] != "#" { t[2].split(',').filter(|x| !x.is_empty()).map(|x| x.parse().unwrap()).collect() } else { vec![] };
     let mut e = Engine::new(cfg);
+    if std::env::var("VH_LIST_ACTIONS").is_ok() {
+        for (i, a) in e.acts.iter().enumerate() {
+            eprintln!("{} {:?} cost {}", i, a.0, a.1);
+        }
+    }
     let mut st = e.initial();
     e.restore(&st);
     for (n, &ai) in idx.iter().enumerate() {
